@@ -28,17 +28,40 @@ type c13NamedI int16
 
 type c13Text struct{ V string }
 
-func (t c13Text) MarshalText() ([]byte, error)  { return []byte("T:" + t.V), nil }
-func (t *c13Text) UnmarshalText(b []byte) error { t.V = string(bytes.TrimPrefix(b, []byte("T:"))); return nil }
+func (t c13Text) MarshalText() ([]byte, error) { return []byte("T:" + t.V), nil }
+func (t *c13Text) UnmarshalText(b []byte) error {
+	t.V = string(bytes.TrimPrefix(b, []byte("T:")))
+	return nil
+}
 
 type c13Bin struct{ N uint16 }
 
-func (b c13Bin) Marshal() ([]byte, error)  { return []byte{byte(b.N >> 8), byte(b.N)}, nil }
+func (b c13Bin) Marshal() ([]byte, error) { return []byte{byte(b.N >> 8), byte(b.N)}, nil }
 func (b *c13Bin) Unmarshal(x []byte) error {
 	if len(x) != 2 {
 		return fmt.Errorf("c13Bin: bad length %d", len(x))
 	}
 	b.N = uint16(x[0])<<8 | uint16(x[1])
+	return nil
+}
+
+// encoders with pointer receivers: only a pointer to the value implements them
+type c13PText struct{ V string }
+
+func (t *c13PText) MarshalText() ([]byte, error) { return []byte("P:" + t.V), nil }
+func (t *c13PText) UnmarshalText(b []byte) error {
+	t.V = string(bytes.TrimPrefix(b, []byte("P:")))
+	return nil
+}
+
+type c13PBin struct{ N uint16 }
+
+func (b *c13PBin) Marshal() ([]byte, error) { return []byte{byte(b.N), byte(b.N >> 8), 7}, nil }
+func (b *c13PBin) Unmarshal(x []byte) error {
+	if len(x) != 3 {
+		return fmt.Errorf("c13PBin: bad length %d", len(x))
+	}
+	b.N = uint16(x[0]) | uint16(x[1])<<8
 	return nil
 }
 
@@ -80,11 +103,13 @@ type c13Row struct {
 	NT   time.Time `sql:",implicitnull"`
 	NmS  c13NamedS
 	NmI  c13NamedI
-	Txt  c13Text  `sql:",string"`
-	Bin  c13Bin   `sql:",binary"`
-	Js   c13JSON  `sql:",json"`
-	PTxt *c13Text `sql:",string"`
-	NTxt c13Text  `sql:",string,implicitnull"`
+	Txt  c13Text   `sql:",string"`
+	Bin  c13Bin    `sql:",binary"`
+	Js   c13JSON   `sql:",json"`
+	PTxt *c13Text  `sql:",string"`
+	NTxt c13Text   `sql:",string,implicitnull"`
+	PPTx *c13PText `sql:",string"`
+	PPBn *c13PBin  `sql:",binary"`
 }
 
 var c13Schema *sqlgen.Schema
@@ -230,6 +255,12 @@ func c13GenRow(r *Rand) *c13Row {
 	if r.Bool() {
 		row.NTxt = c13Text{V: c13Strings[r.Intn(len(c13Strings))]}
 	}
+	if r.Bool() {
+		row.PPTx = &c13PText{V: c13Strings[r.Intn(len(c13Strings))]}
+	}
+	if r.Bool() {
+		row.PPBn = &c13PBin{N: uint16(c13Int(r, 16, false))}
+	}
 	return row
 }
 
@@ -317,6 +348,12 @@ func c13Content(v reflect.Value) string {
 		return "bytes:" + string(b)
 	case c13JSON:
 		b, _ := json.Marshal(x)
+		return "bytes:" + string(b)
+	case c13PText:
+		b, _ := (&x).MarshalText()
+		return "bytes:" + string(b)
+	case c13PBin:
+		b, _ := (&x).Marshal()
 		return "bytes:" + string(b)
 	}
 	switch v.Kind() {
